@@ -5,6 +5,8 @@ package mpx
 import (
 	"sync"
 	"sync/atomic"
+	"time"
+	"unsafe"
 
 	"github.com/basecomplextech/baselibrary/bin"
 )
@@ -45,3 +47,43 @@ func vtrc(event string, ch *channel) {
 		(*f)(event, id, int64(ch.refs.Load()), 0)
 	}
 }
+
+// vstate reports the client's state at the end of a region locked by c.mu (called with the mutex held).
+// a: bit0 closed, bit1 connected, bit2 disconnected, bit3 a connect routine is registered, bit4 auto-connect mode
+// b: listed connections | live (not closed) connections << 16 | connect attempt << 32
+func (c *client) vstate(event string) {
+	f := verifTracer.Load()
+	if f == nil {
+		return
+	}
+	var a int64
+	if c.closed_.IsSet() {
+		a |= 1
+	}
+	if c.connected_.IsSet() {
+		a |= 2
+	}
+	if c.disconnected_.IsSet() {
+		a |= 4
+	}
+	if c.connecting.Valid {
+		a |= 8
+	}
+	if c.mode == ClientMode_AutoConnect {
+		a |= 16
+	}
+	conns := c.conns.Load()
+	live := 0
+	for _, conn := range conns.conns {
+		if !conn.Closed().IsSet() {
+			live++
+		}
+	}
+	b := int64(conns.len()) | int64(live)<<16 | int64(c.connectAttempt)<<32
+	var id bin.Bin128
+	id[0] = bin.Bin64{byte(uintptr(unsafe.Pointer(c)) >> 24), byte(uintptr(unsafe.Pointer(c)) >> 16), byte(uintptr(unsafe.Pointer(c)) >> 8), byte(uintptr(unsafe.Pointer(c)))}
+	(*f)(event, id, a, b)
+}
+
+// VerifReconnectTimeout exposes the back-off function of the auto-connect client.
+func VerifReconnectTimeout(attempt int) time.Duration { return reconnectTimeout(attempt) }
